@@ -177,6 +177,23 @@ var c02Families = []c02Family{
 			return fmt.Sprintf(" | T%d", i)
 		})
 	}, nil},
+	{"loader-directive-ring", func(k int) string {
+		// directive definitions whose arguments carry the next directive, the last one the first again (whatever the
+		// loader's verdict, it has to arrive at it)
+		return "type Query { a(x: Int @d0(x: 1)): Int } " + rep(k, func(i int) string {
+			return fmt.Sprintf("directive @d%d(x: Int @d%d(x: 1)) on ARGUMENT_DEFINITION ", i, (i+1)%k)
+		})
+	}, nil},
+	{"loader-directive-chain-fanout", func(k int) string {
+		return "type Query { a(x: Int @d0(x: 1, y: 2)): Int } " + rep(k, func(i int) string {
+			return fmt.Sprintf("directive @d%d(x: Int @d%d(x: 1, y: 2), y: Int @d%d(x: 1, y: 2)) on ARGUMENT_DEFINITION ", i, i+1, i+1)
+		}) + fmt.Sprintf("directive @d%d(x: Int, y: Int) on ARGUMENT_DEFINITION", k)
+	}, nil},
+	{"loader-input-default-ring", func(k int) string {
+		return "type Query { a(x: I0 = {}): Int } " + rep(k, func(i int) string {
+			return fmt.Sprintf("input I%d { next: I%d = {} n: [I%d] } ", i, (i+1)%k, (i+1)%k)
+		})
+	}, nil},
 	{"loader-extensions", func(k int) string {
 		return "type Query { a: Int } " + rep(k, func(i int) string { return fmt.Sprintf("extend type Query { f%d: Int } ", i) })
 	}, nil},
